@@ -191,3 +191,38 @@ def impl_parse(pat):
     from compare_locales.paths.matcher import PatternParser
     c, v = guarded(lambda: PatternParser().parse(pat))
     return c if c is not None else pattern_canon(v)
+
+
+def impl_sequence(case):
+    """operations on matcher OBJECTS in sequence: use a0 (match, prefix, sub), then rebind it with
+    with_env, then use the rebound matcher and the original again"""
+    a0 = build(case["a0"])
+    b = build(case["b"])
+    p_old, p_new, pb = case["p_old"], case["p_new"], case["pb"]
+    res, canon = {}, {}
+
+    def step(name, f, kind):
+        c, v = guarded(f)
+        res[name] = v
+        if c is not None:
+            canon[name] = c
+        elif kind == "match":
+            canon[name] = "None" if v is None else dict_canon(v)
+        else:
+            canon[name] = "None" if v is None else enc(v)
+    step("a0.match.old", lambda: a0.match(p_old), "match")
+    step("a0.prefix", lambda: a0.prefix, "text")
+    step("a0.sub.old", lambda: a0.sub(b, p_old), "text")
+    c, a1 = guarded(lambda: a0.with_env(dict(case["with"])))
+    if c is not None:
+        res["with_env"] = a1
+        return {"res": res, "canon": canon}
+    step("a1.match.new", lambda: a1.match(p_new), "match")
+    step("a1.match.old", lambda: a1.match(p_old), "match")
+    step("a1.prefix", lambda: a1.prefix, "text")
+    step("a1.sub.new", lambda: a1.sub(b, p_new), "text")
+    step("b.sub.a1", lambda: b.sub(a1, pb), "text")
+    step("a0.match.old.again", lambda: a0.match(p_old), "match")
+    step("a0.match.new", lambda: a0.match(p_new), "match")
+    step("b.sub.a0", lambda: b.sub(a0, pb), "text")
+    return {"res": res, "canon": canon}
